@@ -35,6 +35,7 @@ type loopInfo struct {
 	nblocks int
 	preInv  int
 	hdrReach string
+	modKeys map[string]bool // heap keys the loop body may modify (set when the loop is entered for real)
 }
 
 type Frame struct {
